@@ -49,7 +49,11 @@ impl TableDef {
         let schema = Schema::new(
             self.cols
                 .iter()
-                .map(|c| Field::new(c.name.to_string(), c.data_type.clone(), if c.unique { Some(Constraint::Unique) } else { None }))
+                .map(|c| {
+                    // the foreign keys of E-world carry the ForeignKey tag (a constraint that says nothing about uniqueness)
+                    let fk = matches!((self.name, c.name), ("orders", "user_id") | ("items", "order_id"));
+                    Field::new(c.name.to_string(), c.data_type.clone(), if c.unique { Some(Constraint::Unique) } else if fk { Some(Constraint::ForeignKey) } else { None })
+                })
                 .collect(),
         );
         let size = match exact_size {
